@@ -10,6 +10,8 @@
 import Gedcom.Props.C05Float
 import Gedcom.Model.Float64Jaro
 import Gedcom.Lemmas.JaroSymm
+import Gedcom.Lemmas.ListSymm
+import Mathlib.Tactic.IntervalCases
 namespace Gedcom.C12F
 open Gedcom Gedcom.F64 Gedcom.C05
 
@@ -450,5 +452,350 @@ theorem jaroF_self (a : Str) (h : a ≠ []) : F64.le one (jaroF a a) ∧ F64.le 
     omega
   unfold F64.le one
   simpa using fin
+
+/-! ### `JaroWinkler` and `StringSimilarity` on the float64 values -/
+
+/-- **Operand order** of JaroWinkler, bit for bit -/
+theorem jaroWinklerF_symm (a b : Str) (boost : Dbl) (p : Nat) :
+    jaroWinklerF a b boost p = jaroWinklerF b a boost p := by
+  unfold jaroWinklerF
+  rw [jaroF_symm a b, Sim.prefixMatches_comm p a b]
+
+/-- **Operand order** of StringSimilarity, bit for bit -/
+theorem stringSimilarityF_symm (a b : Str) (boost : Dbl) (p : Nat) :
+    stringSimilarityF a b boost p = stringSimilarityF b a boost p := by
+  unfold stringSimilarityF
+  simp only
+  rw [Sim.comparedNames_swap a b]
+  exact jaroWinklerF_symm _ _ _ _
+
+/-- a value at most `1 + 2^-53` rounds to at most one (at the tie the even neighbour is one) -/
+theorem rnd_le_one_of_near (n d : Nat) (hd : 0 < d) (h : 2 ^ 53 * n ≤ (2 ^ 53 + 1) * d) :
+    leNat (rnd n d) 1 := by
+  by_cases hle : n ≤ d
+  · exact rnd_leNat n d 1 hd (by simpa using hle)
+  · have hgt : d < n := by omega
+    have hk : fracBits n d = 52 := by
+      apply Nat.le_antisymm
+      · exact fracBits_le_52 n d (by omega)
+      · by_contra hc
+        have hlt : fracBits n d < 52 := by omega
+        rcases fracBits_ok_or n d with hP | h1100
+        · -- 2^52 d ≤ n 2^k with k ≤ 51 gives n ≥ 2 d
+          have : n * 2 ^ fracBits n d ≤ n * 2 ^ 51 :=
+            Nat.mul_le_mul_left _ (Nat.pow_le_pow_right (by omega) (by omega))
+          have h2 : 2 ^ 52 * d ≤ n * 2 ^ 51 := le_trans hP this
+          have h3 : 2 * d ≤ n := by
+            have : 2 ^ 51 * (2 * d) ≤ 2 ^ 51 * n := by
+              calc 2 ^ 51 * (2 * d) = 2 ^ 52 * d := by ring
+                _ ≤ n * 2 ^ 51 := h2
+                _ = 2 ^ 51 * n := by ring
+            exact Nat.le_of_mul_le_mul_left this (by positivity)
+          have : 2 ^ 53 * (2 * d) ≤ (2 ^ 53 + 1) * d := le_trans (Nat.mul_le_mul_left _ h3) h
+          have : 2 ^ 54 * d ≤ (2 ^ 53 + 1) * d := by
+            calc 2 ^ 54 * d = 2 ^ 53 * (2 * d) := by ring
+              _ ≤ (2 ^ 53 + 1) * d := this
+          have := Nat.le_of_mul_le_mul_right this hd
+          omega
+        · omega
+    unfold rnd; rw [if_neg (by omega)]; simp only [hk]
+    unfold leNat; simp only
+    obtain ⟨_, he2⟩ := roundDiv_err n d 52 hd
+    obtain ⟨ht, _⟩ := roundDiv_tie_even n d 52 hd
+    generalize roundDiv n d 52 = q at *
+    by_contra hc
+    have hq : 2 ^ 52 + 1 ≤ q := by omega
+    -- 2 q d ≤ 2 n 2^52 + d = n 2^53 + d ≤ (2^53 + 1) d + d
+    have h1 : 2 * ((2 ^ 52 + 1) * d) ≤ 2 * (q * d) := Nat.mul_le_mul_left _ (Nat.mul_le_mul_right _ hq)
+    have h2 : 2 * (n * 2 ^ 52) = 2 ^ 53 * n := by ring
+    have h3 : 2 * ((2 ^ 52 + 1) * d) = (2 ^ 53 + 1) * d + d := by ring
+    have hqe : q = 2 ^ 52 + 1 := by
+      by_contra hne
+      have hq2 : 2 ^ 52 + 2 ≤ q := by omega
+      have h1' : 2 * ((2 ^ 52 + 2) * d) ≤ 2 * (q * d) :=
+        Nat.mul_le_mul_left _ (Nat.mul_le_mul_right _ hq2)
+      have h3' : 2 * ((2 ^ 52 + 2) * d) = (2 ^ 53 + 1) * d + 3 * d := by ring
+      omega
+    have htie : 2 * (q * d) = 2 * (n * 2 ^ 52) + d := by omega
+    have := ht htie
+    omega
+
+instance (x : Dbl) (k : Nat) : Decidable (leNat x k) := by unfold leNat; exact inferInstance
+
+/-- rounding a binary64 again does not increase it (53 significant bits, at least one
+    fractional bit) -/
+theorem rnd_idem_le (x : Dbl) (h1 : 2 ^ 52 ≤ x.mant) (h2 : x.mant ≤ 2 ^ 53)
+    (hf' : x.frac ≤ 1000) : F64.le (rnd x.mant (2 ^ x.frac)) x := by
+  have hpos : 0 < x.mant := lt_of_lt_of_le (by positivity) h1
+  have hk1 : fracBits x.mant (2 ^ x.frac) ≤ x.frac :=
+    fracBits_le _ _ _ (Nat.mul_le_mul_right _ h1)
+  have hP := fracBits_ok x.mant (2 ^ x.frac) hpos (Nat.pow_le_pow_right (by omega) hf')
+  generalize hk : fracBits x.mant (2 ^ x.frac) = k at *
+  have hk2 : x.frac ≤ k + 1 := by
+    have : 2 ^ 52 * 2 ^ x.frac ≤ 2 ^ 53 * 2 ^ k := le_trans hP (Nat.mul_le_mul_right _ h2)
+    have : 2 ^ 52 * 2 ^ x.frac ≤ 2 ^ 52 * 2 ^ (k + 1) := by
+      calc 2 ^ 52 * 2 ^ x.frac ≤ 2 ^ 53 * 2 ^ k := this
+        _ = 2 ^ 52 * 2 ^ (k + 1) := by rw [Nat.pow_succ]; ring
+    have := Nat.le_of_mul_le_mul_left this (by positivity)
+    exact (Nat.pow_le_pow_iff_right (by omega)).mp this
+  unfold rnd; rw [if_neg (by omega), hk]
+  unfold F64.le; simp only
+  rcases Nat.eq_or_lt_of_le hk1 with he | hlt
+  · subst he
+    rw [roundDiv_exact x.mant (2 ^ x.frac) x.frac x.mant (by positivity) rfl]
+  · have hke : x.frac = k + 1 := by omega
+    have hm : x.mant = 2 ^ 53 := by
+      apply Nat.le_antisymm h2
+      have : 2 ^ 53 * 2 ^ k ≤ x.mant * 2 ^ k := by
+        calc 2 ^ 53 * 2 ^ k = 2 ^ 52 * 2 ^ (k + 1) := by rw [Nat.pow_succ]; ring
+          _ = 2 ^ 52 * 2 ^ x.frac := by rw [hke]
+          _ ≤ x.mant * 2 ^ k := hP
+      exact Nat.le_of_mul_le_mul_right this (by positivity)
+    have hex : x.mant * 2 ^ k = 2 ^ 52 * 2 ^ x.frac := by
+      rw [hm, hke, Nat.pow_succ]; ring
+    rw [roundDiv_exact x.mant (2 ^ x.frac) k (2 ^ 52) (by positivity) hex]
+    rw [hm, hke, Nat.pow_succ]
+    exact Nat.le_of_eq (by ring)
+
+theorem tenth_times_le_one (pm : Nat) (h : pm ≤ 10) : leNat (mul tenth (ofNat pm)) 1 := by
+  interval_cases pm <;> decide
+
+/-- **Bounds of the Jaro-Winkler step**: for a Jaro value in [0,1] and at most ten matching
+    prefix bytes, `j + 0.1*prefixMatch*(1.0-j)` in float64 never exceeds one -/
+theorem jwValueF_le_one (j boost : Dbl) (pm : Nat) (hj : leNat j 1) (hjf : j.frac ≤ 900)
+    (hpm : pm ≤ 10) : leNat (jwValueF j boost pm) 1 := by
+  unfold jwValueF
+  split
+  · exact hj
+  have hc := tenth_times_le_one pm hpm
+  generalize mul tenth (ofNat pm) = c at *
+  unfold leNat at hj hc
+  simp only [Nat.one_mul] at hj hc
+  rcases Nat.eq_or_lt_of_le hj with heq | hlt
+  · -- j = 1: nothing is added
+    have hy : oneMinus j = ⟨0, 0⟩ := by unfold oneMinus; rw [heq]; simp [rnd]
+    have hz : mul c ⟨0, 0⟩ = ⟨0, 0⟩ := by simp [mul, rnd]
+    rw [hy, hz]
+    unfold add
+    apply rnd_leNat _ _ _ (by positivity)
+    simp; omega
+  · -- j < 1
+    have hnpos : 0 < 2 ^ j.frac - j.mant := by omega
+    have hd1000 : 2 ^ j.frac ≤ 2 ^ 1000 := Nat.pow_le_pow_right (by omega) (by omega)
+    have hdom : 2 ^ j.frac - j.mant < 2 ^ 53 * 2 ^ j.frac := by
+      have : 2 ^ j.frac ≤ 2 ^ 53 * 2 ^ j.frac := Nat.le_mul_of_pos_left _ (by positivity)
+      omega
+    have h53 : 2 ^ 52 ≤ (oneMinus j).mant ∧ (oneMinus j).mant ≤ 2 ^ 53 :=
+      rnd_53_bits (2 ^ j.frac - j.mant) (2 ^ j.frac) hnpos (by positivity) hd1000 hdom
+    have hy1 : leNat (oneMinus j) 1 := by
+      unfold oneMinus; apply rnd_leNat _ _ _ (by positivity); omega
+    have hyfe : (oneMinus j).frac = fracBits (2 ^ j.frac - j.mant) (2 ^ j.frac) := by
+      unfold oneMinus rnd; rw [if_neg (by omega)]
+    have herr : 2 * ((oneMinus j).mant * 2 ^ j.frac) ≤
+        2 * ((2 ^ j.frac - j.mant) * 2 ^ (oneMinus j).frac) + 2 ^ j.frac := by
+      have := (roundDiv_err (2 ^ j.frac - j.mant) (2 ^ j.frac)
+        (fracBits (2 ^ j.frac - j.mant) (2 ^ j.frac)) (by positivity)).2
+      rw [hyfe]
+      unfold oneMinus rnd; rw [if_neg (by omega)]; simpa using this
+    have hyf1000 : (oneMinus j).frac ≤ 1000 := by
+      have hP : 2 ^ 52 * 2 ^ j.frac ≤ (2 ^ j.frac - j.mant) * 2 ^ (j.frac + 52) := by
+        calc 2 ^ 52 * 2 ^ j.frac = 1 * 2 ^ (j.frac + 52) := by rw [Nat.pow_add]; ring
+          _ ≤ (2 ^ j.frac - j.mant) * 2 ^ (j.frac + 52) := Nat.mul_le_mul_right _ hnpos
+      have := fracBits_le _ _ _ hP
+      omega
+    generalize oneMinus j = y at *
+    unfold leNat at hy1
+    simp only [Nat.one_mul] at hy1
+    have hyf52 : 52 ≤ y.frac := by
+      have : 2 ^ 52 ≤ 2 ^ y.frac := le_trans h53.1 hy1
+      exact (Nat.pow_le_pow_iff_right (by omega)).mp this
+    -- z = c * y is at most y
+    have hz1 : F64.le (mul c y) (rnd y.mant (2 ^ y.frac)) := by
+      unfold mul
+      apply rnd_mono _ _ _ _ (by positivity) (by positivity)
+      calc c.mant * y.mant * 2 ^ y.frac ≤ 2 ^ c.frac * y.mant * 2 ^ y.frac :=
+            Nat.mul_le_mul_right _ (Nat.mul_le_mul_right _ hc)
+        _ = y.mant * 2 ^ (c.frac + y.frac) := by rw [Nat.pow_add]; ring
+    have hz2 := rnd_idem_le y h53.1 h53.2 hyf1000
+    have hz : F64.le (mul c y) y := le_trans' hz1 hz2
+    generalize mul c y = z at *
+    -- the sum is at most 1 + 2^-53
+    unfold add
+    apply rnd_le_one_of_near _ _ (by positivity)
+    rw [le_iff_toQ] at hz
+    unfold toQ at hz
+    have hzq : (z.mant : ℚ) / 2 ^ z.frac ≤ (y.mant : ℚ) / 2 ^ y.frac := hz
+    have herrq : (2 : ℚ) * (y.mant * 2 ^ j.frac) ≤ 2 * ((2 ^ j.frac - j.mant) * 2 ^ y.frac) + 2 ^ j.frac := by
+      have hcast : ((2 ^ j.frac - j.mant : ℕ) : ℚ) = 2 ^ j.frac - j.mant := by
+        rw [Nat.cast_sub hj]; push_cast; ring
+      have : ((2 * (y.mant * 2 ^ j.frac) : ℕ) : ℚ) ≤
+          ((2 * ((2 ^ j.frac - j.mant) * 2 ^ y.frac) + 2 ^ j.frac : ℕ) : ℚ) := by exact_mod_cast herr
+      push_cast at this
+      rw [hcast] at this
+      linarith
+    -- in ℚ: Y ≤ (1 - J) + 1/(2·2^yf) and 2^yf ≥ 2^52
+    have hJ : (0 : ℚ) < 2 ^ j.frac := by positivity
+    have hY : (0 : ℚ) < 2 ^ y.frac := by positivity
+    have hZ : (0 : ℚ) < 2 ^ z.frac := by positivity
+    have hyq : (y.mant : ℚ) / 2 ^ y.frac ≤ 1 - (j.mant : ℚ) / 2 ^ j.frac + 1 / (2 * 2 ^ y.frac) := by
+      rw [div_le_iff₀ hY]
+      have e : (1 - (j.mant : ℚ) / 2 ^ j.frac + 1 / (2 * 2 ^ y.frac)) * 2 ^ y.frac =
+          (2 * ((2 ^ j.frac - j.mant) * 2 ^ y.frac) + 2 ^ j.frac) / (2 * 2 ^ j.frac) := by
+        field_simp
+      rw [e, le_div_iff₀ (by positivity)]
+      linarith
+    have h252 : (1 : ℚ) / (2 * 2 ^ y.frac) ≤ 1 / 2 ^ 53 := by
+      apply one_div_le_one_div_of_le (by positivity)
+      calc (2 : ℚ) ^ 53 = 2 * 2 ^ 52 := by norm_num
+        _ ≤ 2 * 2 ^ y.frac := by
+          apply mul_le_mul_of_nonneg_left _ (by norm_num)
+          exact pow_le_pow_right₀ (by norm_num) hyf52
+    have hsumq : (j.mant : ℚ) / 2 ^ j.frac + (z.mant : ℚ) / 2 ^ z.frac ≤ 1 + 1 / 2 ^ 53 := by
+      linarith
+    -- back to the naturals
+    have hfin : ((2 ^ 53 * (j.mant * 2 ^ z.frac + z.mant * 2 ^ j.frac) : ℕ) : ℚ) ≤
+        (((2 ^ 53 + 1) * 2 ^ (j.frac + z.frac) : ℕ) : ℚ) := by
+      push_cast
+      have e : (j.mant : ℚ) / 2 ^ j.frac + (z.mant : ℚ) / 2 ^ z.frac =
+          ((j.mant : ℚ) * 2 ^ z.frac + z.mant * 2 ^ j.frac) / 2 ^ (j.frac + z.frac) := by
+        rw [pow_add]; field_simp
+      rw [e, div_le_iff₀ (by positivity)] at hsumq
+      have e2 : (1 + 1 / (2 : ℚ) ^ 53) * 2 ^ (j.frac + z.frac) =
+          (2 ^ 53 + 1) * 2 ^ (j.frac + z.frac) / 2 ^ 53 := by field_simp
+      rw [e2, le_div_iff₀ (by positivity)] at hsumq
+      linarith
+    exact_mod_cast hfin
+
+/-- the float64 Jaro value has few fractional bits (it is 0 or at least 1/6) -/
+theorem jaroValueF_frac (m h la lb : Nat) (hm : m ≤ 2 ^ 1000) (hh : h ≤ m) :
+    (jaroValueF m h la lb).frac ≤ 900 := by
+  unfold jaroValueF
+  split
+  · simp
+  · rename_i hm0
+    simp only []
+    have hcdiv : div (ofNat (m - h / 2)) (ofNat m) = rnd (m - h / 2) m := by simp [div, ofNat]
+    rw [hcdiv]
+    have hnpos : 0 < m - h / 2 := by omega
+    have hc53 := rnd_53_bits (m - h / 2) m hnpos (by omega) hm (by
+      calc m - h / 2 ≤ m := Nat.sub_le _ _
+        _ < 2 ^ 53 * m := by
+          have : 1 * m < 2 ^ 53 * m := Nat.mul_lt_mul_of_pos_right (by norm_num) (by omega)
+          omega)
+    have hcf : (rnd (m - h / 2) m).frac ≤ 53 := by
+      rw [rnd_frac _ _ hnpos]
+      apply fracBits_le
+      have : m ≤ (m - h / 2) * 2 := by omega
+      calc 2 ^ 52 * m ≤ 2 ^ 52 * ((m - h / 2) * 2) := Nat.mul_le_mul_left _ this
+        _ = (m - h / 2) * 2 ^ 53 := by ring
+    generalize rnd (m - h / 2) m = cM at *
+    generalize add (div (ofNat m) (ofNat la)) (div (ofNat m) (ofNat lb)) = ab
+    -- the sum keeps at most the fractional bits of its last term
+    have hge : 2 ^ 52 * 2 ^ (ab.frac + cM.frac) ≤
+        (ab.mant * 2 ^ cM.frac + cM.mant * 2 ^ ab.frac) * 2 ^ cM.frac := by
+      calc 2 ^ 52 * 2 ^ (ab.frac + cM.frac) = 2 ^ 52 * 2 ^ ab.frac * 2 ^ cM.frac := by
+            rw [Nat.pow_add]; ring
+        _ ≤ cM.mant * 2 ^ ab.frac * 2 ^ cM.frac :=
+            Nat.mul_le_mul_right _ (Nat.mul_le_mul_right _ hc53.1)
+        _ ≤ (ab.mant * 2 ^ cM.frac + cM.mant * 2 ^ ab.frac) * 2 ^ cM.frac :=
+            Nat.mul_le_mul_right _ (Nat.le_add_left _ _)
+    have hnp : 0 < ab.mant * 2 ^ cM.frac + cM.mant * 2 ^ ab.frac :=
+      Nat.add_pos_right _ (Nat.mul_pos (lt_of_lt_of_le (by positivity) hc53.1) (by positivity))
+    have htf : (add ab cM).frac ≤ 53 := by
+      unfold add; rw [rnd_frac _ _ hnp]
+      exact le_trans (fracBits_le _ _ _ hge) hcf
+    have htm : 0 < (add ab cM).mant := by
+      unfold add rnd; rw [if_neg (by omega)]; simp only
+      rcases fracBits_ok_or (ab.mant * 2 ^ cM.frac + cM.mant * 2 ^ ab.frac) (2 ^ (ab.frac + cM.frac))
+        with hP | h1100
+      · have h3 := (Nat.le_div_iff_mul_le (Nat.two_pow_pos (ab.frac + cM.frac))).mpr hP
+        have := (roundDiv_floor (ab.mant * 2 ^ cM.frac + cM.mant * 2 ^ ab.frac)
+          (2 ^ (ab.frac + cM.frac))
+          (fracBits (ab.mant * 2 ^ cM.frac + cM.mant * 2 ^ ab.frac) (2 ^ (ab.frac + cM.frac)))).1
+        have : 0 < 2 ^ 52 := by positivity
+        omega
+      · have := fracBits_le _ _ _ hge
+        omega
+    generalize add ab cM = t at *
+    have hd3 : div t (ofNat 3) = rnd t.mant (3 * 2 ^ t.frac) := by simp [div, ofNat]
+    rw [hd3, rnd_frac _ _ htm]
+    have : fracBits t.mant (3 * 2 ^ t.frac) ≤ t.frac + 54 := by
+      apply fracBits_le
+      calc 2 ^ 52 * (3 * 2 ^ t.frac) ≤ 2 ^ 52 * (4 * 2 ^ t.frac) :=
+            Nat.mul_le_mul_left _ (Nat.mul_le_mul_right _ (by norm_num))
+        _ = 1 * 2 ^ (t.frac + 54) := by rw [Nat.pow_add]; ring
+        _ ≤ t.mant * 2 ^ (t.frac + 54) := Nat.mul_le_mul_right _ htm
+    omega
+
+theorem jaroF_frac (a b : Str) (hla : a.length ≤ 2 ^ 1000) : (jaroF a b).frac ≤ 900 := by
+  have hinv := Sim.jaroFinal_inv a b
+  unfold jaroF; simp only
+  exact jaroValueF_frac _ _ _ _ (le_trans hinv.idx hla) hinv.half
+
+/-- **Bounds**: the float64 Jaro-Winkler value lies in [0, 1] for prefix sizes up to ten (strings
+    of any length a Go string can have) -/
+theorem jaroWinklerF_bounds (a b : Str) (boost : Dbl) (p : Nat) (hp : p ≤ 10)
+    (hla : a.length ≤ 2 ^ 1000) :
+    F64.le ⟨0, 0⟩ (jaroWinklerF a b boost p) ∧ F64.le (jaroWinklerF a b boost p) one := by
+  refine ⟨zero_le _, ?_⟩
+  have hj : leNat (jaroF a b) 1 := by
+    have := (jaroF_bounds a b).2
+    unfold F64.le one at this; unfold leNat; simpa using this
+  have := jwValueF_le_one (jaroF a b) boost (Sim.prefixMatches p a b) hj (jaroF_frac a b hla)
+    (le_trans (Sim.prefixMatches_le p a b) hp)
+  unfold jaroWinklerF
+  unfold leNat at this
+  unfold F64.le one
+  simpa using this
+
+/-- **Bounds**: the float64 `StringSimilarity` lies in [0, 1] -/
+theorem stringSimilarityF_bounds (a b : Str) (boost : Dbl) (p : Nat) (hp : p ≤ 10)
+    (hla : (Sim.comparedNames a b).1.length ≤ 2 ^ 1000) :
+    F64.le ⟨0, 0⟩ (stringSimilarityF a b boost p) ∧ F64.le (stringSimilarityF a b boost p) one := by
+  unfold stringSimilarityF
+  exact jaroWinklerF_bounds _ _ _ _ hp hla
+
+/-- the Jaro-Winkler step keeps a Jaro value of exactly one -/
+theorem jwValueF_one (j boost : Dbl) (pm : Nat) (hj : j.mant = 2 ^ j.frac) :
+    1 * 2 ^ (jwValueF j boost pm).frac ≤ (jwValueF j boost pm).mant := by
+  unfold jwValueF
+  split
+  · omega
+  · have hy : oneMinus j = ⟨0, 0⟩ := by unfold oneMinus; rw [hj]; simp [rnd]
+    have hz : mul (mul tenth (ofNat pm)) ⟨0, 0⟩ = ⟨0, 0⟩ := by simp [mul, rnd]
+    rw [hy, hz]
+    unfold add
+    apply rnd_geNat _ _ _ (by positivity)
+    simp; omega
+
+/-- **Identity**: a non-empty string compared with itself has float64 Jaro-Winkler value one -/
+theorem jaroWinklerF_self (a : Str) (boost : Dbl) (p : Nat) (h : a ≠ []) (hp : p ≤ 10)
+    (hla : a.length ≤ 2 ^ 1000) :
+    F64.le one (jaroWinklerF a a boost p) ∧ F64.le (jaroWinklerF a a boost p) one := by
+  refine ⟨?_, (jaroWinklerF_bounds a a boost p hp hla).2⟩
+  obtain ⟨h1, h2⟩ := jaroF_self a h
+  have hj : (jaroF a a).mant = 2 ^ (jaroF a a).frac := by
+    unfold F64.le one at h1 h2
+    simp at h1 h2
+    omega
+  have := jwValueF_one (jaroF a a) boost (Sim.prefixMatches p a a) hj
+  unfold jaroWinklerF
+  unfold F64.le one
+  simpa using this
+
+/-- **Identity**: a name of which something is left after trimming has float64
+    `StringSimilarity` one with itself -/
+theorem stringSimilarityF_self (a : Str) (boost : Dbl) (p : Nat) (h : Gedcom.cleanSpace a ≠ [])
+    (hp : p ≤ 10) (hla : (Sim.comparedNames a a).1.length ≤ 2 ^ 1000) :
+    F64.le one (stringSimilarityF a a boost p) ∧ F64.le (stringSimilarityF a a boost p) one := by
+  have hx : (Sim.comparedNames a a).1 ≠ [] ∧ (Sim.comparedNames a a).2 = (Sim.comparedNames a a).1 := by
+    unfold Sim.comparedNames
+    by_cases hc : Sim.cleanName a = []
+    · simp [hc, h]
+    · simp [hc]
+  unfold stringSimilarityF
+  simp only
+  rw [hx.2]
+  exact jaroWinklerF_self _ boost p hx.1 hp hla
 
 end Gedcom.C12F
